@@ -7,10 +7,16 @@ NOT_APPLICABLE = {
     'C14': 'quantifies over rayon thread schedules; Kani has no threads and Verus cannot see rayon; the reachable fragment (commutativity/associativity of vector addition) is decided under C13 (DESIGN.md §5)',
     'C15': 'statement about exact probability laws over all random tapes; neither verifier has a probabilistic logic and the num-bigint/num-rational arithmetic would be all assumed contracts (DESIGN.md §5)',
 }
-for _p in ['C01', 'C06', 'C10', 'C11', 'C17']:
+for _p in ['C01', 'C06', 'C11', 'C17']:
     NOT_APPLICABLE[_p] = _PENDING
 
 TEXT = {
+    'C10': {
+        'text': 'Partial: the array kernels around the transform, not the transform itself. Verus proves on the extracted text, for any field and every size: poly_eval_monomial == value of the polynomial (Horner == sum a_i x^i), ntt_inv_finish == index reversal + scaling with frame, the in-place interleave of double_evaluations, fp::log2 == ceil(log2), bitrev index range.',
+        'note': 'NOT decided: forward NTT == evaluation at the powers of the root of unity, inverse undoes forward, barycentric evaluation, extension to a power of two, Lagrange multiplication, and the error reporting of ntt_internal. A mutation of a butterfly is not detected by this check (DESIGN.md section 4 C10).',
+        'technique': 'function contracts with loop invariants on extracted real code over an abstract field (Verus)',
+        'design_ref': 'DESIGN.md §4 C10',
+    },
     'C09': {
         'text': 'Proof. Every function of fp/ops.rs that field arithmetic is built from carries a machine-checked contract against integers mod p '
                 '(add/sub/neg/modp for all three word sizes; single-word Montgomery mul for FP32/FP64 and split-word mul for FP128: r<p and r*R == x*y mod p for ALL operands; '
